@@ -10,6 +10,7 @@ use std::cmp::Ordering;
 
 fn lib_compare(ctx: &mut Ctx, a: &[u8], b: &[u8], info: &dyn Fn() -> String) -> Option<Ordering> {
     ctx.count("compare.calls");
+    ctx.evals += 1;
     match guard(|| jsonb::compare(a, b)) {
         Err(p) => {
             ctx.panic_violation("compare", &p, info);
